@@ -536,8 +536,40 @@ pub fn family_legacy(r: &mut Rng) -> Key {
     }
 }
 
-pub const N_FAMILIES: usize = 9;
-pub const FAMILY_NAMES: [&str; N_FAMILIES] = ["try_into", "from_str", "mul_like", "error", "from_into", "fmt_bounds", "as_ref", "rename_all", "legacy_syntax"];
+/// Variant-heavy derives: IsVariant / Unwrap / TryUnwrap on enums of mixed variant kinds, and Display-like
+/// derives with one `#[display("..")]` per variant on generic enums (bounds inferred per placeholder).
+pub fn family_variants(r: &mut Rng) -> Key {
+    let n = scaled(r, 3, 10);
+    let name = ident(r, "Vr");
+    let derive = *r.pick(&["IsVariant", "Unwrap", "TryUnwrap", "Display", "Display", "Debug"]);
+    let fmt = matches!(derive, "Display" | "Debug");
+    let attr = if derive == "Debug" { "debug" } else { "display" };
+    let generic = fmt && r.chance(2, 3);
+    let mut vs = Vec::new();
+    for i in 0..n {
+        let v = format!("{}{i}", ident(r, "V"));
+        let body = match r.below(4) {
+            0 if !fmt => v.clone(),
+            1 => format!("{v} ( {} )", if generic && r.chance(1, 2) { "T" } else { r.pick(PRIMS) }),
+            2 => format!("{v} {{ a : {} }}", if generic && r.chance(1, 2) { "U" } else { r.pick(PRIMS) }),
+            _ => format!("{v} ( {} , u8 )", if generic { "T" } else { "i32" }),
+        };
+        if fmt {
+            let lit = if body.contains("{ a") { "{a} happened" } else { "got {_0}" };
+            vs.push(format!("# [{attr} (\"{lit} #{i}\")] {body}"));
+        } else {
+            vs.push(body);
+        }
+    }
+    let g = if generic { "< T , U >" } else { "" };
+    Key {
+        derive: derive.into(),
+        item: format!("enum {name} {g} {{ {} }}", vs.join(" , ")),
+    }
+}
+
+pub const N_FAMILIES: usize = 10;
+pub const FAMILY_NAMES: [&str; N_FAMILIES] = ["try_into", "from_str", "mul_like", "error", "from_into", "fmt_bounds", "as_ref", "rename_all", "legacy_syntax", "variants"];
 
 /// derives each family exercises (a hot session keeps to them)
 pub const FAMILY_DERIVES: [&[&str]; N_FAMILIES] = [
@@ -550,6 +582,7 @@ pub const FAMILY_DERIVES: [&[&str]; N_FAMILIES] = [
     &["AsRef", "AsMut"],
     &["Display", "Debug"],
     &["Display", "Debug", "From", "Into", "Binary"],
+    &["IsVariant", "Unwrap", "TryUnwrap", "Display", "Debug"],
 ];
 
 pub fn family(r: &mut Rng, which: usize) -> Key {
@@ -562,7 +595,8 @@ pub fn family(r: &mut Rng, which: usize) -> Key {
         5 => family_fmt(r),
         6 => family_as_ref(r),
         7 => family_rename_all(r),
-        _ => family_legacy(r),
+        8 => family_legacy(r),
+        _ => family_variants(r),
     }
 }
 
